@@ -138,6 +138,22 @@ EvForEachL == Is("fl") /\ Query(Ev.a = Len(lst[Ev.o]))
 EvVisitL == /\ Is("vi") /\ Ev.b >= 1 /\ Ev.b <= Len(lst[Ev.o]) /\ lst[Ev.o][Ev.b] = Ev.a
             /\ UNCHANGED <<lst, flt, nn, nf, pending, frames, done, pins>>
 
+\* forEach(event, function) whose function is user code: a frame that visits the snapshot like a dispatch (no filters, no arguments)
+EvEnumBegin == /\ Is("fub") /\ LET S == Settle(frames, done) IN
+                  /\ InCtx(S.fr) /\ done' = S.dn
+                  /\ frames' = Append(S.fr, [NewD(Ev.o, 0, 0, TRUE, 0) EXCEPT !.ph = "u", !.ftodo = <<>>, !.todo = lst[Ev.o]])
+               /\ UNCHANGED <<lst, flt, nn, nf, pending, pins>>
+EvEnumVisit == /\ Is("vu") /\ frames # <<>> /\ Top(frames).k = "D" /\ Top(frames).ph = "u" /\ Top(frames).cur = 0
+               /\ LET d == Top(frames)  t == LiveL(d.e, d.todo) IN
+                  /\ t # <<>> /\ Head(t) = Ev.a
+                  /\ frames' = [frames EXCEPT ![Len(frames)] = [d EXCEPT !.todo = Tail(t), !.cur = Ev.a]]
+               /\ UNCHANGED <<lst, flt, nn, nf, pending, done, pins>>
+EvEnumRet == /\ Is("vr") /\ frames # <<>> /\ Top(frames).k = "D" /\ Top(frames).ph = "u" /\ Top(frames).cur = Ev.a /\ Ev.a # 0
+             /\ frames' = [frames EXCEPT ![Len(frames)].cur = 0] /\ UNCHANGED <<lst, flt, nn, nf, pending, done, pins>>
+EvEnumEnd == /\ Is("fue") /\ frames # <<>> /\ Top(frames).k = "D" /\ Top(frames).ph = "u" /\ Top(frames).cur = 0
+             /\ LiveL(Top(frames).e, Top(frames).todo) = <<>>
+             /\ frames' = SubSeq(frames, 1, Len(frames) - 1) /\ pins' = IF Len(frames) = 1 THEN 0 ELSE pins
+             /\ UNCHANGED <<lst, flt, nn, nf, pending, done>> /\ LvOk(frames', pins')
 EvAppendF == /\ Is("af") /\ LET S == Settle(frames, done) IN
                 /\ InCtx(S.fr) /\ Ev.r = nf + 1 /\ flt' = Append(flt, nf + 1) /\ nf' = nf + 1
                 /\ frames' = S.fr /\ done' = S.dn /\ UNCHANGED <<lst, nn, pending, pins>> /\ LvOk(S.fr, pins)
@@ -378,6 +394,7 @@ EvReset == /\ Is("rs") /\ frames = <<>> /\ Ev.lv = 0 /\ Ev.pv = 0
 
 Next == \/ ((EvAppendL \/ EvPrependL \/ EvInsertL \/ EvAppendCtr \/ EvAppendCond \/ EvAppendCF) /\ UA)
         \/ EvThrowUser \/ EvDispatchExit \/ EvProcessExit \/ EvArm \/ EvFaulted \/ EvTakeFaulted
+        \/ ((EvEnumBegin \/ EvEnumVisit \/ EvEnumRet \/ EvEnumEnd) /\ UR)
         \/ ((EvRemoveL \/ EvHasAnyL \/ EvOwnsL \/ EvForEachL \/ EvVisitL \/ EvAppendF \/ EvRemoveF
              \/ EvDispatchBegin \/ EvDispatchEnd \/ EvFilterBegin \/ EvFilterEnd \/ EvRet
              \/ EvEnqueue \/ EvProcessBegin \/ EvPredBegin \/ EvPredEnd \/ EvProcessEnd \/ EvPeek \/ EvTake \/ EvClear \/ EvEmptyQ \/ EvEndNoDrain) /\ UR)
